@@ -18,7 +18,9 @@ use serde_json::json;
 #[derive(Clone, Debug, Serialize, Deserialize)]
 pub struct MultiCase {
     pub gc: GraphCase,
-    /// 0: free picks; 1: endpoints of an attack first; 2: one argument per component first
+    /// 0: free picks; 1: endpoints of an attack first; 2: one argument per component first;
+    /// 3: picks by semantic role (in every preferred extension but not ideal / ideal but not grounded /
+    /// grounded / in some but not all preferred extensions / in none / in every stable extension)
     pub mode: u8,
     pub picks: Vec<u16>,
     /// seed and bias of the model-choosing SAT backend (see satwrap::Chooser)
@@ -34,6 +36,27 @@ pub enum MultiAny {
 }
 
 pub struct Multi;
+
+/// Graphs built around the textbook gadget in which an argument belongs to every preferred extension without
+/// being ideal (a <-> b, both attack c, c attacks d), next to an unattacked argument that starts a chain, all
+/// of it perturbed by a few generated attacks: lists over such graphs mix the roles "in all preferred",
+/// "ideal", "grounded" and "in some preferred" far more often than random graphs do.
+fn skeptical_not_ideal(nmax: usize) -> BoxedStrategy<gen::AbsGraph> {
+    (6usize..=nmax.max(6), vec((any::<u16>(), any::<u16>()), 0..=4), any::<bool>())
+        .prop_map(|(n, extra, link)| {
+            // 0 <-> 1, 0 -> 2, 1 -> 2, 2 -> 3 ; 4 unattacked, 4 -> 5
+            let mut att: Vec<(u8, u8)> = vec![(0, 1), (1, 0), (0, 2), (1, 2), (2, 3), (4, 5)];
+            if link {
+                // one connected component: the chain end attacks the gadget's sink
+                att.push((5, 3));
+            }
+            for (a, b) in extra {
+                att.push((idx(a, n) as u8, idx(b, n) as u8));
+            }
+            gen::AbsGraph { n, att }
+        })
+        .boxed()
+}
 
 pub fn resolve_picks(g: &G, att: &[(u8, u8)], mode: u8, picks: &[u16]) -> Vec<usize> {
     let n = g.n;
@@ -223,7 +246,7 @@ impl Prop for Multi {
     }
     fn strategy(&self, tier: Tier) -> BoxedStrategy<MultiAny> {
         let composite = crate::checks::statics::composite_strategy(tier).prop_map(MultiAny::Composite);
-        let medium = (crate::checks::statics::medium_strategy(), 0u8..3, vec(any::<u16>(), 1..=3), (any::<u64>(), 0u8..3))
+        let medium = (crate::checks::statics::medium_strategy(), 0u8..4, vec(any::<u16>(), 1..=3), (any::<u64>(), 0u8..3))
             .prop_map(|(gc, mode, picks, choice)| MultiAny::Small(MultiCase { gc, mode, picks, choice }));
         prop_oneof![150 => self.small_strategy(tier).prop_map(MultiAny::Small), 1 => composite, 2 => medium].boxed()
     }
@@ -246,9 +269,9 @@ impl Multi {
     fn small_strategy(&self, tier: Tier) -> BoxedStrategy<MultiCase> {
         let nmax = tier.pick(9, 12);
         (
-            prop_oneof![3 => gen::graph_multi(nmax), 2 => gen::graph(nmax)],
+            prop_oneof![3 => gen::graph_multi(nmax), 2 => gen::graph(nmax), 1 => skeptical_not_ideal(nmax)],
             gen::pres(nmax),
-            0u8..3,
+            prop_oneof![1 => Just(0u8), 1 => Just(1u8), 1 => Just(2u8), 2 => Just(3u8)],
             vec(any::<u16>(), 1..=3),
             (any::<u64>(), 0u8..3),
         )
@@ -307,7 +330,29 @@ impl Multi {
         } else {
             Fams::new(&g)
         };
-        let list = resolve_picks(&g, &case.gc.g.att, case.mode, &case.picks);
+        let list = if case.mode == 3 {
+            let full = g.full();
+            let inter_pr = fams.pr.iter().fold(full, |a, b| a & b);
+            let union_pr = fams.pr.iter().fold(0u32, |a, b| a | b);
+            let inter_st = if fams.st.is_empty() { 0 } else { fams.st.iter().fold(full, |a, b| a & b) };
+            let roles = [inter_pr & !fams.id, fams.id & !fams.gr, fams.gr, union_pr & !inter_pr, full & !union_pr, inter_st];
+            case.picks
+                .iter()
+                .map(|p| {
+                    let members = mask_to_vec(roles[(*p >> 13) as usize % roles.len()]);
+                    if members.is_empty() {
+                        idx(*p, g.n)
+                    } else {
+                        members[idx(p.wrapping_mul(8), members.len())]
+                    }
+                })
+                .collect()
+        } else {
+            resolve_picks(&g, &case.gc.g.att, case.mode, &case.picks)
+        };
+        if case.mode == 3 {
+            rec.class("list-picked-by-semantic-roles");
+        }
         let qm: u32 = list.iter().fold(0, |m, a| m | (1 << a));
         let comps = g.components();
         let spans = comps.iter().filter(|c| *c & qm != 0).count();
